@@ -16,7 +16,8 @@ EXTENDS Integers, Sequences, FiniteSets, TLC, Json
 
 CONSTANTS MaxProps,     \* properties of the root object
           ValueIdx,     \* subset of 1..Len(ValueMenu) used
-          AnnPerValue   \* how many annotations of each value's menu are used (0 = only "no annotation")
+          AnnPerValue,  \* how many annotations of each value's menu are used (0 = only "no annotation")
+          Contexts      \* where the built object stands in the text: subset of 0..2 (see Wrap)
 
 \* ---- rule values
 RNum(t)  == [k |-> "number",  t |-> t, items |-> <<>>, props |-> <<>>]
@@ -132,22 +133,35 @@ PropKeys == << Key("id", FALSE), Key("a\\\"b", FALSE), Key("last", FALSE) >>   \
 \* ---- the project being built: root object whose i-th property is (PropKeys[i], value, annotation)
 VARIABLES props,    \* seq of [v |-> value index, a |-> annotation index (0 = none)]
           rootAnn,  \* 0 none, 1 note only, 2 rule + note
+          ctx,      \* context the built object is placed in (chosen when the project is finished)
           done
-vars == <<props, rootAnn, done>>
+vars == <<props, rootAnn, ctx, done>>
 
-Init == props = <<>> /\ rootAnn = 0 /\ done = FALSE
+Init == props = <<>> /\ rootAnn = 0 /\ ctx = 0 /\ done = FALSE
 AddProp(v, a) == /\ ~done /\ Len(props) < MaxProps
                  /\ v \in ValueIdx /\ a \in 0..(IF AnnPerValue < Len(AnnMenu[v]) THEN AnnPerValue ELSE Len(AnnMenu[v]))
                  \* `optional` and allOf+optional annotate properties: always the case here
-                 /\ props' = Append(props, [v |-> v, a |-> a]) /\ UNCHANGED <<rootAnn, done>>
-Finish(r) == /\ ~done /\ props # <<>> /\ r \in 0..2 /\ rootAnn' = r /\ done' = TRUE /\ UNCHANGED props
-Next == (\E v \in 1..Len(ValueMenu), a \in 0..12 : AddProp(v, a)) \/ (\E r \in 0..2 : Finish(r))
+                 /\ props' = Append(props, [v |-> v, a |-> a]) /\ UNCHANGED <<rootAnn, ctx, done>>
+Finish(r, x) == /\ ~done /\ props # <<>> /\ r \in 0..2 /\ x \in Contexts
+                /\ rootAnn' = r /\ ctx' = x /\ done' = TRUE /\ UNCHANGED props
+Next == (\E v \in 1..Len(ValueMenu), a \in 0..12 : AddProp(v, a)) \/ (\E r \in 0..2, x \in 0..2 : Finish(r, x))
 Spec == Init /\ [][Next]_vars
 
 RootAnns == << NoAnn, Ann(<<>>, 1), Ann(<<Rule("additionalProperties", RBool("true"))>>, 2) >>
 AnnOf(p) == IF p.a = 0 THEN NoAnn ELSE AnnMenu[p.v][p.a]
-Project == Obj([i \in 1..Len(props) |-> PropKeys[i]],
-               [i \in 1..Len(props) |-> Kid(ValueMenu[props[i].v], AnnOf(props[i]))])
+Built == Obj([i \in 1..Len(props) |-> PropKeys[i]],
+             [i \in 1..Len(props) |-> Kid(ValueMenu[props[i].v], AnnOf(props[i]))])
+\* The same object with the same annotation means the same wherever it stands.  Context 0: it is the root.
+\* Context 1: the last member of an object that is the only item of an array that is a property of the root
+\* (depth 3, after an annotated sibling).  Context 2: the second and last item of a root array, after a scalar.
+Wrap(x, node, ann) ==
+  CASE x = 0 -> Kid(node, ann)
+    [] x = 1 -> Kid(Obj(<< Key("outer", FALSE) >>,
+                        << Kid(Arr(<< Kid(Obj(<< Key("first", FALSE), Key("deep", FALSE) >>,
+                                              << Kid(Twelve, Ann(<<Rule("min", RNum("1"))>>, 3)), Kid(node, ann) >>), NoAnn) >>), NoAnn) >>), NoAnn)
+    [] x = 2 -> Kid(Arr(<< Kid(Tom, NoAnn), Kid(node, ann) >>), NoAnn)
+Placed == Wrap(ctx, Built, RootAnns[rootAnn + 1])
+Project == Placed.node
 
 \* ---- the tree GetAST() must return
 RECURSIVE RuleAst(_)
@@ -170,8 +184,8 @@ Elements(node) == 1 + (IF node.kids = <<>> THEN 0 ELSE LET s == [i \in 1..Len(no
 RECURSIVE AstSize(_)
 AstSize(a) == 1 + (IF a.kids = <<>> THEN 0 ELSE LET s == [i \in 1..Len(a.kids) |-> AstSize(a.kids[i])]
                                                   IN LET RECURSIVE Sum(_) Sum(j) == IF j = 0 THEN 0 ELSE s[j] + Sum(j - 1) IN Sum(Len(s)))
-OneNodePerElement == done => AstSize(AstOf(Project, RootAnns[rootAnn + 1], Key("", FALSE))) = Elements(Project)
+OneNodePerElement == done => AstSize(AstOf(Project, Placed.ann, Key("", FALSE))) = Elements(Project)
 \* the names used by a project (for the used-types observable and for registering what the project needs)
-Emit == done => PrintT(ToJson([project |-> Project, rootann |-> RootAnns[rootAnn + 1], notes |-> Notes,
-                               ast |-> AstOf(Project, RootAnns[rootAnn + 1], Key("", FALSE))]))
+Emit == done => PrintT(ToJson([project |-> Project, rootann |-> Placed.ann, notes |-> Notes, ctx |-> ctx,
+                               ast |-> AstOf(Project, Placed.ann, Key("", FALSE))]))
 ===============================================================================
